@@ -201,6 +201,9 @@ class InputFileRoundTrip(Contract):
                 ui["dh"] = templates.drillhole_group_data(value=["Au", "Cu"], group_value=dg.uid)
                 ui["dh_opt"] = templates.drillhole_group_data(value=["Cu"], group_value=dg.uid, optional="enabled")
                 ui["dh_off"] = templates.drillhole_group_data(group_value=dg.uid, optional="disabled")
+                # a hole of a drillhole group as the object, one of its depth logs as the data
+                ui["hole"] = templates.object_parameter(value=str(hole.uid), mesh_type=[str(Drillhole.default_type_uid())])
+                ui["hole_data"] = templates.data_parameter(parent="hole", value=str(hole.get_data("Au")[0].uid), association="Vertex")
                 ui["o"] = templates.object_parameter(value=str(pts.uid))
                 ui["range"] = templates.range_label_template(parent="o", property_=str(dat.uid), value=[0.5, 1.5])
                 ui["range_inv"] = templates.range_label_template(parent="o", property_=str(dat.uid), value=[0.0, 2.0], allow_complement=True, is_complement=True, optional="enabled")
